@@ -205,38 +205,53 @@ Proof. exact pg_same_namespace. Qed.
     DROP INDEX) no statement form is excluded any more; [reference r] leaves out only the NEW
     name of ALTER TYPE ... RENAME TO, which is a definition and bare by SQL syntax.
 
-    Round 5: the statement for EVERY change set is FALSE of the skeleton, as of the code
-    (C16_skeleton_refuted, finding C16-serial-enum-type-raw): a column type change between a serial
-    type and an enum type writes the enum type RAW -- alterType's "sequence was dropped" arm uses
-    FormatType(To), the bare type name, neither quoted nor qualified (forward for serial -> enum, in
-    the reverse statement for enum -> serial).  It is proved for every change set without such a
-    column change ([change_ok]); serial <-> integer, inspected sequences are inside. *)
+    Round 5: with fix C16-serial-enum-type-ident (alterType's "sequence was dropped" arm writes an
+    enum type through enumIdent, like the default arm) the statement holds of the skeleton for EVERY
+    change set again, serial <-> integer <-> enum changes and inspected sequences included.  BEFORE
+    the fix that arm wrote FormatType(To) -- the enum type's raw name, neither quoted nor qualified
+    (finding C16-serial-enum-type-raw, reproduced on the real code): C16_skeleton_before_fix. *)
 Theorem C16_skeleton_partial :
-  forall (pg : bool) (cs : list RefSkeleton.change), Forall change_ok cs ->
+  forall (pg : bool) (cs : list RefSkeleton.change),
   forall s r, In s (plan_skel pg cs) -> In r (s_refs s) -> reference r ->
   ref_chain (Some []) r = ref_names r /\
   (forall q, q <> [] -> ref_chain (Some q) r = q :: ref_names r) /\
   ref_chain None r = opt_name (ref_own r) ++ ref_names r.
 Proof. exact skeleton_chains. Qed.
 
-(** and no statement form writes a reference to an existing object through bare [Ident] *)
+(** and no statement form writes a reference to an existing object through bare [Ident], nor raw *)
 Theorem C16_skeleton_no_bare_reference :
-  forall (pg : bool) (cs : list RefSkeleton.change) s n, Forall change_ok cs ->
+  forall (pg : bool) (cs : list RefSkeleton.change) s n,
   In s (plan_skel pg cs) -> ~ In (RBare n) (s_refs s) /\ ~ In (RRaw n) (s_refs s).
 Proof.
-  intros pg cs s n HC Hs. pose proof (skeleton_refs_qualifying pg cs HC) as K.
+  intros pg cs s n Hs. pose proof (skeleton_refs_qualifying pg cs) as K.
   unfold stmts_ok in K. rewrite Forall_forall in K. specialize (K s Hs).
   unfold stmt_ok in K. rewrite Forall_forall in K. split; intros Hn; exact (K _ Hn).
 Qed.
 
-(** the witness: table m.t, column c: serial -> enum m.e, qualifier q: the ALTER TABLE statement holds
-    the reference [RRaw e], written as the chain [e] -- not [q; e] -- and the change set is not [change_ok] *)
-Theorem C16_skeleton_refuted :
-  exists cs s n q, In s (plan_skel true cs) /\ In (RRaw n) (s_refs s) /\
-                   ref_chain (Some q) (RRaw n) = [n] /\ q <> [] /\ ~ Forall change_ok cs.
+(** the formerly refuted case, now positive: a column of ANY table changed from a serial type (any
+    SequenceName) to the enum type ns.n -- the type reference of the ALTER COLUMN ... TYPE clause goes
+    through typeIdent: exactly [q; n] under a custom qualifier q, [n] under "" *)
+Theorem C16_skeleton_serial_to_enum :
+  forall o c ns n sn q,
+  alter_type_refs o c (Some (ns, n)) (Some sn) None = [RType ns n] /\
+  (q <> [] -> map (ref_chain (Some q)) (alter_type_refs o c (Some (ns, n)) (Some sn) None) = [[q; n]]) /\
+  map (ref_chain (Some [])) (alter_type_refs o c (Some (ns, n)) (Some sn) None) = [[n]].
+Proof. exact serial_to_enum_refs. Qed.
+
+(** For the record, the code BEFORE the fix ([alter_type_refs_before_fix]): the same clause held the
+    raw name -- the chain [n] whatever the qualifier, through no qualifying call -- and that was the
+    only place (formerly C16_skeleton_refuted).  Reverting the fix makes stage [insp] report exactly
+    these inputs (oracle class type-reference-raw). *)
+Theorem C16_skeleton_before_fix :
+  forall o c ns n sn q,
+  (alter_type_refs_before_fix o c (Some (ns, n)) (Some sn) None = [RRaw n] /\
+   map (ref_chain (Some q)) (alter_type_refs_before_fix o c (Some (ns, n)) (Some sn) None) = [[n]] /\
+   ~ qualifying (RRaw n)) /\
+  (forall te fs ts m, In (RRaw m) (alter_type_refs_before_fix o c te fs ts) ->
+                      fs <> None /\ ts = None /\ exists ns', te = Some (ns', m)).
 Proof.
-  destruct skeleton_raw_witness as [s [H1 [H2 [H3 H4]]]].
-  exists w_raw, s, [101], [113]. repeat split; try assumption. discriminate.
+  intros o c ns n sn q. split; [exact (serial_to_enum_refs_before_fix o c ns n sn q)|].
+  intros te fs ts m. exact (raw_only_there o c te fs ts m).
 Qed.
 
 (** * 3. CheckChangesScope *)
@@ -437,7 +452,8 @@ Print Assumptions C16_replay_dev_name_irrelevant.
 Print Assumptions C16_replay_before_fix.
 Print Assumptions C16_skeleton_partial.
 Print Assumptions C16_skeleton_no_bare_reference.
-Print Assumptions C16_skeleton_refuted.
+Print Assumptions C16_skeleton_serial_to_enum.
+Print Assumptions C16_skeleton_before_fix.
 Print Assumptions C16_skeleton_sequence_dropped.
 Print Assumptions C16_skeleton_sequence_added.
 Print Assumptions C16_skeleton_sequence_prefix.
@@ -660,12 +676,15 @@ Example ex_checkpoint :
   exclude_tabs (fun n => bytes_eqb n (rt_name t1)) [t1; t2] = [t2].
 Proof. repeat split; vm_compute; reflexivity. Qed.
 
-(* C16_skeleton_refuted / C16_skeleton_partial's hypothesis: serial -> enum is not change_ok, serial -> integer is;
-   what the statement looks like: ALTER TABLE q.t ... TYPE e  (the raw name is not an identifier chain) *)
-Example ex_skeleton_raw :
-  plan_obs true (Some q_) w_raw =
-    [ (false, h_alter_table, [[q_; [116]]], []); (true, h_alter_table, [[q_; [116]]], [[q_; seq_name [116] [99]]]);
+(* C16_skeleton_serial_to_enum / _before_fix: table m.t, column c: serial -> enum m.e under qualifier q:
+   ALTER TABLE q.t ... TYPE q.e (fixed code); the raw name e before the fix *)
+Definition w_ser_enum : list RefSkeleton.change :=
+  [RefSkeleton.ModifyTable (mkTab (mkObj (Some m_) [116]) [] [] [] false)
+     [ModifyColumn [99] None (Some (Some m_, [101])) (Some []) None true false false]].
+Example ex_skeleton_serial_to_enum :
+  plan_obs true (Some q_) w_ser_enum =
+    [ (false, h_alter_table, [[q_; [116]]; [q_; [101]]], []); (true, h_alter_table, [[q_; [116]]], [[q_; seq_name [116] [99]]]);
       (false, h_drop_sequence, [[q_; seq_name [116] [99]]], []);
       (true, h_create_sequence, [[q_; seq_name [116] [99]]; [q_; [116]; [99]]], []) ] /\
-  Forall change_ok [RefSkeleton.ModifyTable w_raw_t [ModifyColumn [99] None None (Some []) None true false false]].
-Proof. split; [vm_compute; reflexivity|]. repeat constructor; intros; reflexivity. Qed.
+  map (ref_chain (Some q_)) (alter_type_refs_before_fix (mkObj (Some m_) [116]) [99] (Some (Some m_, [101])) (Some []) None) = [[[101]]].
+Proof. split; vm_compute; reflexivity. Qed.
